@@ -17,7 +17,21 @@ const (
 	bSkip
 	bHijackReq
 	bHijackRes
+	bHijackReqErr // hijacks and returns an error from the same call
+	bHijackResErr
 )
+
+// norm maps the hijack-and-fail behaviours to the plain hijack ones: what must hold after a
+// hijack does not depend on what the hijacking modifier returned.
+func norm(b int) int {
+	switch b {
+	case bHijackReqErr:
+		return bHijackReq
+	case bHijackResErr:
+		return bHijackRes
+	}
+	return b
+}
 
 type exchangeRec struct {
 	req         *http.Request
@@ -107,10 +121,13 @@ func (m *recorder) ModifyRequest(req *http.Request) error {
 		return m.modErr()
 	case bSkip:
 		r.reqCtx.SkipRoundTrip()
-	case bHijackReq:
+	case bHijackReq, bHijackReqErr:
 		c, _, err := r.reqCtx.Session().Hijack()
 		vf.Assert(err == nil && c != nil, "hijack-succeeds")
 		m.hijackedAt = m.activity()
+		if b == bHijackReqErr {
+			return m.modErr()
+		}
 	}
 	return nil
 }
@@ -140,10 +157,13 @@ func (m *recorder) ModifyResponse(res *http.Response) error {
 	switch b {
 	case bError:
 		return m.modErr()
-	case bHijackRes:
+	case bHijackRes, bHijackResErr:
 		c, _, err := r.resCtx.Session().Hijack()
 		vf.Assert(err == nil && c != nil, "hijack-succeeds")
 		m.hijackedAt = m.activity()
+		if b == bHijackResErr {
+			return m.modErr()
+		}
 	}
 	return nil
 }
@@ -162,7 +182,7 @@ func VerifC02Plain() {
 	var ms []string
 	behave := make([]int, n)
 	for i := 0; i < n; i++ {
-		behave[i] = vf.Choice("behaviour", 5)
+		behave[i] = vf.Choice("behaviour", 7)
 		wire = append(wire, reqSpec{method: "GET", path: "/r" + string(rune('0'+i)), hval: "v"}.wire())
 		ms = append(ms, "GET")
 	}
@@ -184,6 +204,10 @@ func VerifC02Plain() {
 
 func checkExchanges(m *recorder, conn *clientConn, o *origin, ms []string, behave []int, n int) {
 	// exchanges up to and including the first hijack
+	behave = append([]int(nil), behave...)
+	for i := range behave {
+		behave[i] = norm(behave[i])
+	}
 	served := n
 	hijack := -1
 	for i, b := range behave {
@@ -255,7 +279,7 @@ type tunnelTarget struct {
 
 // VerifC02Connect: a CONNECT request without MITM (dial succeeds or fails).
 func VerifC02Connect() {
-	behave := []int{vf.Choice("behaviour", 5)}
+	behave := []int{vf.Choice("behaviour", 7)}
 	dialOK := vf.Choice("dial-ok", 2) == 1
 	wire := []byte("CONNECT example.com:443 HTTP/1.1\r\nHost: example.com:443\r\n\r\n")
 	conn := newClientConn("client", true, wire)
@@ -278,6 +302,7 @@ func VerifC02Connect() {
 	vf.Assert(len(m.recs) == 1, "request-modifier-runs-for-the-connect-request")
 	r := m.recs[0]
 	vf.Assert(r.reqCalls == 1 && r.originAtReq == 0, "request-modifier-once-before-dialling")
+	behave[0] = norm(behave[0])
 	if behave[0] == bHijackReq {
 		vf.Assert(dials == 0 && r.resCalls == 0, "hijacked-connect-is-not-dialled")
 		vf.Assert(m.activity() == m.hijackedAt, "no-proxy-io-on-a-hijacked-connection")
